@@ -98,6 +98,10 @@ def const_tree(n, limit=16):
     return const_tree(n.args[1], limit - 1) and const_tree(n.args[2], limit - 1)
 
 def binop(op, a, b, ty):
+    if ty.startswith('i') and ty != 'i1':
+        # undef bits (padding of bit-fields): any value is a valid refinement; choose 0
+        if a.op == 'undef': a = const_int(int(ty[1:]), 0)
+        if b.op == 'undef': b = const_int(int(ty[1:]), 0)
     if op == 'fsub':
         return binop('fadd', a, fneg(b), ty)
     if ty.startswith('i') and ty != 'i1':
@@ -155,6 +159,13 @@ def binop(op, a, b, ty):
         elif op == 'xor': r = x ^ y
         elif op == 'shl' and y < w: r = x << y
         elif op == 'lshr' and y < w: r = x >> y
+        elif op == 'udiv' and y: r = x // y
+        elif op == 'urem' and y: r = x % y
+        elif op in ('sdiv', 'srem') and y:
+            sx, sy = signed(a), signed(b)
+            q = abs(sx) // abs(sy) * (1 if (sx < 0) == (sy < 0) else -1)
+            r = q if op == 'sdiv' else sx - q * sy
+        elif op == 'ashr' and y < w: r = signed(a) >> y
         if r is not None:
             return const_int(w, r & m)
     if ty.startswith('i') and ty != 'i1':
